@@ -1,4 +1,5 @@
 import PandoraModel.Properties.C13
+import PandoraModel.Properties.C13Steps
 open Pandora.C13
 #print axioms Local.comp
 #print axioms Local.pair
@@ -9,3 +10,6 @@ open Pandora.C13
 #print axioms crop_eq_whole
 #print axioms crop_anywhere
 #print axioms stencil_vflip
+#print axioms toDisp_is_wtaStep
+#print axioms wtaStep_local
+#print axioms wta_crop_eq_whole
